@@ -200,7 +200,11 @@ class Repo:
 
                 with open(os.path.join(os.path.dirname(os.path.abspath(__file__)), "baseline_symbols.json")) as f:
                     rows = _json.load(f)
-                self.moved_back = _canon.move_back({rel: tree for rel, src, tree in parsed if rel.startswith(PKG) and not rel.startswith(PKG + "/resources")}, rows)
+                pkg_trees = {rel: tree for rel, src, tree in parsed if rel.startswith(PKG) and not rel.startswith(PKG + "/resources")}
+                self.moved_back = _canon.move_back(pkg_trees, rows)
+                from .inline import inline_new_members
+
+                self.members_inlined = inline_new_members(pkg_trees)
             except OSError:
                 pass
         for rel, src, tree in parsed:
